@@ -4,7 +4,16 @@ given properties, undo the patch, record which checks raised a VIOLATION in seed
 import json, os, subprocess, sys, time
 seed, pids = sys.argv[1], sys.argv[2:]
 d = f"/verif/seeded/{seed}"
-st = subprocess.run(["git", "-C", "/repo", "status", "--porcelain"], capture_output=True, text=True).stdout.strip()
+# one seeded run at a time (several people use this script): exclusive lock, then wait for a clean /repo
+import fcntl
+os.makedirs("/verif/.build", exist_ok=True)
+_lock = open("/verif/.build/seedrun.lock", "w")
+fcntl.flock(_lock, fcntl.LOCK_EX)
+for _ in range(120):
+    st = subprocess.run(["git", "-C", "/repo", "status", "--porcelain"], capture_output=True, text=True).stdout.strip()
+    if not st:
+        break
+    time.sleep(10)
 if st:
     print("refusing: /repo working tree is not clean:\n" + st); sys.exit(2)
 subprocess.run(["git", "-C", "/repo", "apply", os.path.join(d, "patch.diff")], check=True)
@@ -26,6 +35,8 @@ try:
             shutil.move(ev + ".keep", ev)
 finally:
     subprocess.run(["git", "-C", "/repo", "checkout", "--", "."], check=True)
+    # the generated parts of the model must describe the restored sources again
+    subprocess.run(["python3", "tools/gen_lean.py", "grid", "anchors"], cwd="/verif", capture_output=True)
 path = os.path.join(d, "detection.json")
 old = json.load(open(path)) if os.path.exists(path) else {}
 old.update(res)
